@@ -323,6 +323,48 @@ fn compare_search(ctx: &Ctx, ms: &MateScores, p: &Pos, depth: u8, mv: &ChessMove
     if ctx.sample_count() < 10 { ctx.sample(json!({"fen": p.to_fen(), "depth": depth, "mode": mode, "engine_score": score, "minimax": want, "move": format!("{}", mv)})); }
 }
 
+/// Lines L0 -> L1 -> P (one legal move each) into a position P whose mover can promote, where the promotion that is
+/// best when P's children are only evaluated differs from the one that is strictly best one ply deeper.
+fn underpromotion_lines(r: &mut Rng, ms: &MateScores, want: usize, tries: usize) -> Vec<(Pos, Pos)> {
+    let mut out = vec![];
+    for _ in 0..tries {
+        if out.len() >= want { break; }
+        let s = *r.pick(&[Col::W, Col::B]);
+        let mut p = Pos::empty();
+        let mut free: Vec<u8> = (0..64u8).collect(); r.shuffle(&mut free);
+        let file = r.below(8) as u8;
+        let psq = if s == Col::W { 48 + file } else { 8 + file };
+        free.retain(|x| *x != psq);
+        p.sq[psq as usize] = Some((s, Pc::P));
+        p.sq[free[0] as usize] = Some((s, Pc::K));
+        p.sq[free[1] as usize] = Some((s.opp(), Pc::K));
+        let mut k = 2;
+        for pc in [Pc::Q, Pc::R, Pc::N, Pc::B] { if r.chance(0.6) { p.sq[free[k] as usize] = Some((s.opp(), pc)); k += 1; } }
+        for pc in [Pc::R, Pc::N, Pc::B] { if r.chance(0.3) { p.sq[free[k] as usize] = Some((s, pc)); k += 1; } }
+        p.turn = s;
+        if !p.is_consistent() { continue; }
+        let moves = p.legal_moves();
+        if !moves.iter().any(|m| matches!(m.kind, Kind::Promo(_) | Kind::PromoCapture(_))) || moves.len() > 30 { continue; }
+        let sign = if s == Col::W { 1 } else { -1 };
+        let mut n = 0u64;
+        let vals: Vec<(i32, i32)> = moves.iter().map(|m| { let c = p.make(m); (sign * reference_minimax(&c, 0, ms, &mut n), sign * reference_minimax(&c, 1, ms, &mut n)) }).collect();
+        let best = |f: &dyn Fn(&(i32, i32)) -> i32| -> Option<usize> { let mx = vals.iter().map(|v| f(v)).max()?; let w: Vec<usize> = (0..vals.len()).filter(|i| f(&vals[*i]) == mx).collect(); if w.len() == 1 { Some(w[0]) } else { None } };
+        let (Some(a), Some(b)) = (best(&|v| v.0), best(&|v| v.1)) else { continue };
+        let (ma, mb) = (&moves[a], &moves[b]);
+        let promo = |m: &Mv| matches!(m.kind, Kind::Promo(_) | Kind::PromoCapture(_));
+        if a == b || !promo(ma) || !promo(mb) || ma.from != mb.from || ma.to != mb.to { continue; }
+        // two plies back: a move of the other side into P, and before that a move of the promoting side
+        let l1s = gen::retro_predecessors(&p, r, 6);
+        'l1: for l1 in l1s {
+            if l1.legal_moves().len() > 6 { continue; }
+            for l0 in gen::retro_predecessors(&l1, r, 4) {
+                if l0.legal_moves().len() <= 30 && l0.legal_moves().len() >= 2 { out.push((l0, l1.clone())); break 'l1; }
+            }
+        }
+    }
+    out
+}
+
 fn c08_one(ctx: &Ctx, ms: &MateScores, c: &C08Case) {
     let oracle = match c { C08Case::Fresh { p, depth, .. } | C08Case::Prewarmed { p, depth, .. } | C08Case::GameReuse { p, depth, .. } => (p.key_hash() ^ *depth as u64) % 3 == 0 && *depth <= 4 };
     let cf = if oracle { CacheFunc::with_node_oracle(ms) } else { CacheFunc::new() };
@@ -452,21 +494,32 @@ pub fn c08(o: &Opts) -> i32 {
             tries += 1;
             let mut p = Pos::empty();
             let strong = *dr.pick(&[Col::W, Col::B]);
-            let wk = *dr.pick(&[0u8, 1, 2, 3, 8, 16, 24, 7, 15, 63, 62, 56, 57, 48, 55, 59]);
+            let two = tries % 2 == 0;
+            let wk = if two { dr.below(64) as u8 } else { *dr.pick(&[0u8, 1, 2, 3, 8, 16, 24, 7, 15, 63, 62, 56, 57, 48, 55, 59]) };
             p.sq[wk as usize] = Some((strong.opp(), Pc::K));
             let mut free: Vec<u8> = (0..64u8).filter(|s| *s != wk).collect(); dr.shuffle(&mut free);
             p.sq[free[0] as usize] = Some((strong, Pc::K));
             p.sq[free[1] as usize] = Some((strong, *dr.pick(&[Pc::R, Pc::Q, Pc::R])));
-            p.turn = *dr.pick(&[Col::W, Col::B]);
+            if two { p.sq[free[2] as usize] = Some((strong, *dr.pick(&[Pc::R, Pc::Q]))); }
+            // with two heavy pieces the defender moves first: every reply loses, some quicker than others
+            p.turn = if two { strong.opp() } else { *dr.pick(&[Col::W, Col::B]) };
             if !p.is_consistent() || p.legal_moves().len() < 2 { continue; }
             let mut n = 0u64;
-            if reference_minimax(&p, 3, &ms, &mut n).abs() < 16000 { continue; } // a mate in two at least; the depth-6 search sees many slower mates as well
+            if reference_minimax(&p, if two { 4 } else { 3 }, &ms, &mut n).abs() < 16000 { continue; } // a forced mate well inside the horizon; the depth-6 search sees many slower mates as well
             found += 1;
             retro_cases.push(C08Case::Fresh { p, depth: 6, pool: *dr.pick(&[1usize, 4, 8]) });
             ctx.count("deep_searches_with_a_forced_mate_inside_the_horizon", 1);
         }
     }
-    { let mut pr = Rng::new(o.seed).fork(tag("c08-promotions")); for _ in 0..if q { 8 } else { 60 } { let p = gen::random_setup_profile(&mut pr, 3); if p.legal_moves().len() >= 2 && p.legal_moves().len() <= 30 && p.piece_count() <= 10 { cases.insert(0, C08Case::GameReuse { p, depth: 3, plies: 6, pool: *pr.pick(&[1usize, 4]) }); ctx.count("game_reuse_cases_from_promotion_ready_positions", 1); } } }
+    {
+        // a context that met a promotion square at a shallow depth and meets it again one ply deeper, where a
+        // different promotion piece is the only best move
+        let mut ur = Rng::new(o.seed).fork(tag("c08-underpromotion"));
+        let lines = underpromotion_lines(&mut ur, &ms, if q { 6 } else { 40 }, if q { 6000 } else { 60000 });
+        ctx.count("lines_into_a_position_where_the_best_promotion_piece_changes_with_depth", lines.len() as u64);
+        for (l0, l1) in lines { retro_cases.push(C08Case::Prewarmed { p: l1, others: vec![l0], depth: 3, pool: *ur.pick(&[1usize, 4]) }); }
+    }
+    { let mut pr = Rng::new(o.seed).fork(tag("c08-promotions")); for _ in 0..if q { 40 } else { 300 } { let p = gen::random_setup_profile(&mut pr, 3); if p.legal_moves().len() >= 2 && p.legal_moves().len() <= 30 && p.piece_count() <= 10 { cases.insert(0, C08Case::GameReuse { p, depth: 3, plies: 6, pool: *pr.pick(&[1usize, 4]) }); ctx.count("game_reuse_cases_from_promotion_ready_positions", 1); } } }
     // a game from the initial position, as the game loops play it
     cases.insert(0, C08Case::GameReuse { p: Pos::start(), depth: 2, plies: if q { 10 } else { 30 }, pool: 8 });
     cases.insert(1, C08Case::GameReuse { p: Pos::from_fen("r1bqkbnr/pppp1ppp/2n5/4p3/4P3/5N2/PPPP1PPP/RNBQKB1R w KQkq - 2 3").unwrap(), depth: 3, plies: if q { 6 } else { 24 }, pool: 16 });
